@@ -18,8 +18,7 @@ Agreement == Finished /\ st.dev = {} =>
                ref.k = "any" \/ st.res.k = "any" \/ SameRes(st.res, ref)
 
 \* a fired deviation is never the harmless kind that still yields a crash-free wrong "reject"
-DevIsNamed == st.dev \subseteq {"ReduceWithoutLookahead", "TrailingOperatorAccepted",
-                                "UnclosedParenAccepted", "UnaryOperandErrorIgnored"}
+DevIsNamed == st.dev \subseteq {"ReduceWithoutLookahead"}
 
 \* the evaluator never holds more than 3 values / 2 operators per frame
 Bounded == \A i \in DOMAIN st.fr : Len(st.fr[i].vals) <= 3 /\ Len(st.fr[i].ops) <= 2
